@@ -437,6 +437,10 @@ func inlineText(node ast.Node, src []byte) string {
 	for c := node.FirstChild(); c != nil; c = c.NextSibling() {
 		if t, ok := c.(*ast.Text); ok {
 			buf.WriteString(infoString(t.Segment.Value(src)))
+			if t.SoftLineBreak() || t.HardLineBreak() {
+				// the line break between two words of the text is still there
+				buf.WriteByte('\n')
+			}
 		} else if cs, ok := c.(*ast.CodeSpan); ok {
 			// code span content is literal: no backslash escapes, no character references
 			buf.WriteString(codeSpanContent(cs, src))
